@@ -65,10 +65,10 @@ func (c13) Property() string { return "C13" }
 
 func (c13) Classes() []sim.Class {
 	return []sim.Class{
-		{Name: "crash-points", Engine: "compiler", Quick: 48, Thorough: 320, Instrumented: true, RunTimeoutSec: 300, Batch: 1},
-		{Name: "write-faults", Engine: "compiler", Quick: 32, Thorough: 400, Instrumented: true, RunTimeoutSec: 300, Batch: 1},
-		{Name: "truncation", Engine: "compiler", Quick: 32, Thorough: 600, Instrumented: true, RunTimeoutSec: 300, Batch: 1},
-		{Name: "read-faults", Engine: "compiler", Quick: 32, Thorough: 600, Instrumented: true, RunTimeoutSec: 300, Batch: 1},
+		{Name: "crash-points", Engine: "compiler", Quick: 48, Thorough: 320, Instrumented: true, RunTimeoutSec: 900, Batch: 1},
+		{Name: "write-faults", Engine: "compiler", Quick: 32, Thorough: 400, Instrumented: true, RunTimeoutSec: 900, Batch: 1},
+		{Name: "truncation", Engine: "compiler", Quick: 32, Thorough: 600, Instrumented: true, RunTimeoutSec: 900, Batch: 1},
+		{Name: "read-faults", Engine: "compiler", Quick: 32, Thorough: 600, Instrumented: true, RunTimeoutSec: 900, Batch: 1},
 		{Name: "concurrent-writers", Engine: "compiler", Quick: 160, Thorough: 6000, Instrumented: true, RunTimeoutSec: 300},
 		{Name: "determinism-processes", Engine: "compiler", Quick: 24, Thorough: 800, Instrumented: true, RunTimeoutSec: 300, NeedsPIEWorker: true},
 		// entries of more than a megabyte (over a hundred thousand functions): every internal buffer is crossed
